@@ -43,19 +43,21 @@ theorem pos?_none {n : Nat} {i : Int} (h : pos? n i = none) :
   · rw [if_pos hc] at h; exact absurd h (by simp)
   · exact hc
 
-@[simp] theorem rows_mk (r : List Row) (c : List (Name × LB)) (b : Nat) (h : Option (List Name)) (l : Bool) :
-    (LB.mk r c b h l).rows = r := rfl
-@[simp] theorem chapters_mk (r : List Row) (c : List (Name × LB)) (b : Nat) (h : Option (List Name)) (l : Bool) :
-    (LB.mk r c b h l).chapters = c := rfl
-@[simp] theorem buffindex_mk (r : List Row) (c : List (Name × LB)) (b : Nat) (h : Option (List Name)) (l : Bool) :
-    (LB.mk r c b h l).buffindex = b := rfl
-@[simp] theorem header_mk (r : List Row) (c : List (Name × LB)) (b : Nat) (h : Option (List Name)) (l : Bool) :
-    (LB.mk r c b h l).header = h := rfl
-@[simp] theorem logHeader_mk (r : List Row) (c : List (Name × LB)) (b : Nat) (h : Option (List Name)) (l : Bool) :
-    (LB.mk r c b h l).logHeader = l := rfl
+@[simp] theorem rows_mk (r : List Row) (c : List (Name × LB)) (b : Nat) (h : Option (List Name)) (l s : Bool) :
+    (LB.mk r c b h l s).rows = r := rfl
+@[simp] theorem chapters_mk (r : List Row) (c : List (Name × LB)) (b : Nat) (h : Option (List Name)) (l s : Bool) :
+    (LB.mk r c b h l s).chapters = c := rfl
+@[simp] theorem buffindex_mk (r : List Row) (c : List (Name × LB)) (b : Nat) (h : Option (List Name)) (l s : Bool) :
+    (LB.mk r c b h l s).buffindex = b := rfl
+@[simp] theorem header_mk (r : List Row) (c : List (Name × LB)) (b : Nat) (h : Option (List Name)) (l s : Bool) :
+    (LB.mk r c b h l s).header = h := rfl
+@[simp] theorem logHeader_mk (r : List Row) (c : List (Name × LB)) (b : Nat) (h : Option (List Name)) (l s : Bool) :
+    (LB.mk r c b h l s).logHeader = l := rfl
+@[simp] theorem headerStreamed_mk (r : List Row) (c : List (Name × LB)) (b : Nat) (h : Option (List Name)) (l s : Bool) :
+    (LB.mk r c b h l s).headerStreamed = s := rfl
 
 @[simp] theorem LB.eta (lb : LB) :
-    LB.mk lb.rows lb.chapters lb.buffindex lb.header lb.logHeader = lb := by cases lb; rfl
+    LB.mk lb.rows lb.chapters lb.buffindex lb.header lb.logHeader lb.headerStreamed = lb := by cases lb; rfl
 
 /-! ### `pop` on logbooks whose chapters are aligned at every depth -/
 
@@ -63,7 +65,7 @@ mutual
 /-- every chapter, at every depth, has as many rows as its parent, and every stream position is
 within its logbook -/
 def DeepAligned : LB → Prop
-  | .mk rows chs b _ _ => b ≤ rows.length ∧ AllAligned rows.length chs
+  | .mk rows chs b _ _ _ => b ≤ rows.length ∧ AllAligned rows.length chs
 def AllAligned (n : Nat) : List (Name × LB) → Prop
   | [] => True
   | (_, ch) :: rest => ch.rows.length = n ∧ DeepAligned ch ∧ AllAligned n rest
@@ -73,7 +75,7 @@ mutual
 /-- position `p` removed from the logbook and from every chapter at every depth, each stream
 position following the removal (specification of `pop` / `del`) -/
 def eraseDeep (p : Nat) : LB → LB
-  | .mk rows chs b h lh => .mk (rows.eraseIdx p) (eraseDeepAll p chs) (if p < b then b - 1 else b) h lh
+  | .mk rows chs b h lh hs => .mk (rows.eraseIdx p) (eraseDeepAll p chs) (if p < b then b - 1 else b) h lh hs
 def eraseDeepAll (p : Nat) : List (Name × LB) → List (Name × LB)
   | [] => []
   | (k, ch) :: rest => (k, eraseDeep p ch) :: eraseDeepAll p rest
@@ -94,7 +96,8 @@ theorem eraseDeep_buffindex (p : Nat) (lb : LB) :
     (eraseDeep p lb).buffindex = if p < lb.buffindex then lb.buffindex - 1 else lb.buffindex := by
   cases lb; rfl
 theorem eraseDeep_header (p : Nat) (lb : LB) :
-    (eraseDeep p lb).header = lb.header ∧ (eraseDeep p lb).logHeader = lb.logHeader := by
+    (eraseDeep p lb).header = lb.header ∧ (eraseDeep p lb).logHeader = lb.logHeader ∧
+    (eraseDeep p lb).headerStreamed = lb.headerStreamed := by
   cases lb; simp [eraseDeep]
 
 theorem allAligned_iff (n : Nat) (chs : List (Name × LB)) :
@@ -135,7 +138,7 @@ mutual
 is returned and leaves the logbook and every chapter at every depth. -/
 theorem pop_deep (index : Int) (p : Nat) : ∀ (lb : LB), DeepAligned lb →
     pos? lb.rows.length index = some p → pop index lb = (lb.rows[p]?, eraseDeep p lb)
-  | .mk rows chs b h lh, hd, hp => by
+  | .mk rows chs b h lh hs, hd, hp => by
     have hd' : b ≤ rows.length ∧ AllAligned rows.length chs := by simpa [DeepAligned] using hd
     have hp' : pos? rows.length index = some p := hp
     have hc := popChapters_deep index p rows.length chs hd'.2 hp'
@@ -158,7 +161,7 @@ mutual
 /-- `pop` with an out-of-range index on a deep-aligned logbook raises and changes nothing. -/
 theorem pop_out_deep (index : Int) : ∀ (lb : LB), DeepAligned lb →
     pos? lb.rows.length index = none → pop index lb = (none, lb)
-  | .mk rows chs b h lh, hd, hp => by
+  | .mk rows chs b h lh hs, hd, hp => by
     have hd' : b ≤ rows.length ∧ AllAligned rows.length chs := by simpa [DeepAligned] using hd
     have hp' : pos? rows.length index = none := hp
     have hout := pos?_none hp'
@@ -178,7 +181,7 @@ end
 
 mutual
 theorem eraseDeep_aligned (p : Nat) : ∀ (lb : LB), DeepAligned lb → DeepAligned (eraseDeep p lb)
-  | .mk rows chs b h lh, hd => by
+  | .mk rows chs b h lh hs, hd => by
     have hd' : b ≤ rows.length ∧ AllAligned rows.length chs := by simpa [DeepAligned] using hd
     have h2 := eraseDeepAll_aligned p rows.length chs hd'.2
     simp only [eraseDeep, DeepAligned, List.length_eraseIdx]
